@@ -7,7 +7,7 @@ Require Import FV.Base.Util FV.Gen.C14 FV.C14.Model.
 Definition sbeh_eqb (a b : sbeh) : bool :=
   match a, b with
   | BNext f, BNext g => Nat.eqb f g | BRetry, BRetry | BFinish, BFinish
-  | BNonCallable, BNonCallable | BRaise, BRaise => true | _, _ => false end.
+  | BNonCallable, BNonCallable | BRaise, BRaise => true | BFinal c, BFinal c' => Z.eqb c c' | _, _ => false end.
 
 Definition event_eqb (a b : event) : bool :=
   match a, b with
@@ -16,6 +16,7 @@ Definition event_eqb (a b : event) : bool :=
   | EvInt r, EvInt r' => Nat.eqb r r'
   | EvTrans a f, EvTrans a' f' => Bool.eqb a a' && opt_eqb Nat.eqb f f'
   | EvPickup i a, EvPickup j b => Nat.eqb i j && Bool.eqb a b
+  | EvFinal c, EvFinal c' => Z.eqb c c'
   | _, _ => false
   end.
 
@@ -69,3 +70,67 @@ Definition check_case (c : case) : bool := run_check (mk_world c) sm0 (c_ops c) 
 (* what the model does, for diagnosis in replay files *)
 Definition model_trace (c : case) : list event :=
   rev (trace (run (mk_world c) maxloops outer_rounds (c_ops c))).
+
+(* ------------------------------------------------------------------ HasStates layer cases *)
+Require Import FV.C14.HasStates.
+
+Definition text_code_eqb (a b : text) : bool := text_eqb a b.
+Definition status_eqb (a b : status) : bool := Z.eqb (fst a) (fst b) && text_eqb (snd a) (snd b).
+
+Record hobs := {
+  ho_st : status;
+  ho_idle : option status;
+  ho_log : list status;            (* values returned by read_status during this op, chronological *)
+  ho_sf : option sid;
+  ho_nt : option nat;
+}.
+
+Record hcase := {
+  h_s : list (nat * sbeh);
+  h_scode : list (sid * Z);
+  h_ops : list hop;
+  h_obs : list hobs;
+}.
+
+Definition hworld (c : hcase) : world :=
+  {| w_s := fun n => match assoc_nat n (h_s c) with Some b => b | None => BRetry end;
+     w_c := fun _ => CNone;          (* on_cleanup returns None *)
+     w_env := fun _ => None |}.
+
+Definition gcodes : codes := {| c_idle := status_idle; c_busy := status_busy; c_error := status_error |}.
+
+Definition hobs_ok (before after : hs) (o : hobs) : bool :=
+  status_eqb (st after) (ho_st o)
+  && opt_eqb status_eqb (idle after) (ho_idle o)
+  && list_eqb status_eqb (rev (firstn (length (log after) - length (log before)) (log after))) (ho_log o)
+  && opt_eqb Nat.eqb (statefunc (core after)) (ho_sf o)
+  && opt_eqb Nat.eqb (option_map task_id (next_task (core after))) (ho_nt o).
+
+Fixpoint hrun_check (c : hcase) (h : hs) (ops : list hop) (os : list hobs) : bool :=
+  match ops, os with
+  | [], [] => true
+  | o :: ops', ob :: os' =>
+      let h' := hstep gcodes (fun f => assoc_nat f (h_scode c)) start_resets_idle_status (hworld c) maxloops outer_rounds h o in
+      hobs_ok h h' ob && hrun_check c h' ops' os'
+  | _, _ => false
+  end.
+
+Definition check_hcase (c : hcase) : bool := hrun_check c (hs0 gcodes) (h_ops c) (h_obs c).
+
+Inductive anycase := CCore (c : case) | CHs (c : hcase).
+Definition check_any (a : anycase) : bool :=
+  match a with CCore c => check_case c | CHs c => check_hcase c end.
+
+Definition hmodel_status (c : hcase) : list status :=
+  rev (log (hrun gcodes (fun f => assoc_nat f (h_scode c)) start_resets_idle_status (hworld c) maxloops outer_rounds (h_ops c))).
+
+(* per-op view of the model, for diagnosis *)
+Fixpoint hmodel_steps_from (c : hcase) (h : hs) (ops : list hop) : list (status * option status * list status * option sid * option nat) :=
+  match ops with
+  | [] => []
+  | o :: ops' =>
+      let h' := hstep gcodes (fun f => assoc_nat f (h_scode c)) start_resets_idle_status (hworld c) maxloops outer_rounds h o in
+      (st h', idle h', rev (firstn (length (log h') - length (log h)) (log h')), statefunc (core h'),
+       option_map task_id (next_task (core h'))) :: hmodel_steps_from c h' ops'
+  end.
+Definition hmodel_steps (c : hcase) := hmodel_steps_from c (hs0 gcodes) (h_ops c).
